@@ -23,7 +23,12 @@ use std::sync::{Arc, RwLock};
 
 // ---------------------------------------------------------------- server
 
-type Ctx = Arc<RwLock<BTreeSet<u64>>>;
+/// the collections behind the two endpoints (swapped between scans only)
+struct Store {
+    ints: RwLock<BTreeSet<u64>>,
+    names: RwLock<BTreeSet<String>>,
+}
+type Ctx = Arc<Store>;
 
 #[derive(Deserialize, JsonSchema, Debug)]
 struct ScanP {
@@ -42,7 +47,7 @@ async fn items_ep(
 ) -> Result<HttpResponseOk<ResultsPage<u64>>, HttpError> {
     let p = query.into_inner();
     let limit = rqctx.page_limit(&p)?.get() as usize;
-    let coll = rqctx.context().read().unwrap();
+    let coll = rqctx.context().ints.read().unwrap();
     let (order, items): (PaginationOrder, Vec<u64>) = match &p.page {
         WhichPage::First(ScanP { order }) => {
             let order = order.unwrap_or(PaginationOrder::Ascending);
@@ -70,6 +75,54 @@ async fn items_ep(
     })?))
 }
 
+/// the same endpoint over a collection keyed by strings: the selector holds
+/// the last name seen (the pattern of dropshot/examples/pagination-basic.rs)
+#[derive(Serialize, Deserialize, JsonSchema, Debug, Clone)]
+struct SelS {
+    order: PaginationOrder,
+    last: String,
+}
+
+#[endpoint { method = GET, path = "/names" }]
+async fn names_ep(
+    rqctx: RequestContext<Ctx>,
+    query: Query<PaginationParams<ScanP, SelS>>,
+) -> Result<HttpResponseOk<ResultsPage<String>>, HttpError> {
+    let p = query.into_inner();
+    let limit = rqctx.page_limit(&p)?.get() as usize;
+    let coll = rqctx.context().names.read().unwrap();
+    let (order, items): (PaginationOrder, Vec<String>) = match &p.page {
+        WhichPage::First(ScanP { order }) => {
+            let order = order.unwrap_or(PaginationOrder::Ascending);
+            let v = match order {
+                PaginationOrder::Ascending => coll.iter().take(limit).cloned().collect(),
+                PaginationOrder::Descending => coll.iter().rev().take(limit).cloned().collect(),
+            };
+            (order, v)
+        }
+        WhichPage::Next(SelS { order, last }) => {
+            let v = match order {
+                PaginationOrder::Ascending => coll
+                    .range::<String, _>((Bound::Excluded(last), Bound::Unbounded))
+                    .take(limit)
+                    .cloned()
+                    .collect(),
+                PaginationOrder::Descending => coll
+                    .range::<String, _>((Bound::Unbounded, Bound::Excluded(last)))
+                    .rev()
+                    .take(limit)
+                    .cloned()
+                    .collect(),
+            };
+            (*order, v)
+        }
+    };
+    Ok(HttpResponseOk(ResultsPage::new(items, &order, |k: &String, o: &PaginationOrder| SelS {
+        order: *o,
+        last: k.clone(),
+    })?))
+}
+
 struct Server {
     _rt: tokio::runtime::Runtime,
     server: dropshot::HttpServer<Ctx>,
@@ -78,11 +131,12 @@ struct Server {
 }
 fn start() -> Server {
     let rt = live::rt();
-    let ctx: Ctx = Arc::new(RwLock::new(BTreeSet::new()));
+    let ctx: Ctx = Arc::new(Store { ints: RwLock::new(BTreeSet::new()), names: RwLock::new(BTreeSet::new()) });
     let server = {
         let _g = rt.enter();
         let mut api = ApiDescription::new();
         api.register(items_ep).unwrap();
+        api.register(names_ep).unwrap();
         live::start_server(api, ctx.clone(), live::ServerOpts::default())
     };
     Server { _rt: rt, server, ctx, conn: None }
@@ -176,12 +230,15 @@ enum Case {
     Scan { order: String, keys: Keys, limit: Option<u64> },
     /// full scans of one collection for many client limits
     Grid { order: String, keys: Keys, limits: Vec<Option<u64>> },
+    /// one full scan of a collection keyed by strings (any order, duplicates
+    /// dropped: the server holds them in a BTreeSet)
+    Names { order: String, names: Vec<String>, limit: Option<u64> },
 }
 
 #[derive(Deserialize)]
 struct PageIn {
     next_page: Option<String>,
-    items: Vec<u64>,
+    items: Vec<Value>,
 }
 
 struct PageObs {
@@ -199,6 +256,19 @@ fn enc(s: &str) -> String {
 }
 
 fn scan(srv: &mut Server, order: &str, n: usize, limit: Option<u64>) -> ScanObs {
+    scan_at(srv, "/items", order, n, limit, &|v: &Value| v.as_u64())
+}
+
+/// `key`: what an item of the response is, as a number (None: not an item of
+/// the expected type, reported as a failed request)
+fn scan_at(
+    srv: &mut Server,
+    path: &str,
+    order: &str,
+    n: usize,
+    limit: Option<u64>,
+    key: &dyn Fn(&Value) -> Option<u64>,
+) -> ScanObs {
     let mut pages: Vec<PageObs> = vec![];
     let mut tok: Option<String> = None;
     let lim = limit.map(|l| format!("&limit={}", l)).unwrap_or_default();
@@ -209,9 +279,9 @@ fn scan(srv: &mut Server, order: &str, n: usize, limit: Option<u64>) -> ScanObs 
             return ScanObs::Runaway(pages);
         }
         let target = match &tok {
-            None => format!("/items?order={}{}", order, lim),
+            None => format!("{}?order={}{}", path, order, lim),
             // the scan parameters are not repeated: the token carries the order
-            Some(t) => format!("/items?page_token={}{}", enc(t), lim),
+            Some(t) => format!("{}?page_token={}{}", path, enc(t), lim),
         };
         let resp = match srv.get(&target) {
             Ok(r) => r,
@@ -224,8 +294,13 @@ fn scan(srv: &mut Server, order: &str, n: usize, limit: Option<u64>) -> ScanObs 
             Ok(p) => p,
             Err(_) => return ScanObs::Failed(0, pages),
         };
+        let items: Option<Vec<u64>> = page.items.iter().map(key).collect();
+        let items = match items {
+            Some(i) => i,
+            None => return ScanObs::Failed(0, pages),
+        };
         let next = page.next_page.clone();
-        pages.push(PageObs { items: page.items, token: page.next_page });
+        pages.push(PageObs { items, token: page.next_page });
         match next {
             None => return ScanObs::Done(pages),
             Some(t) => tok = Some(t),
@@ -259,7 +334,8 @@ fn j_obs(o: &ScanObs) -> Value {
     let sizes = |p: &[PageObs]| p.iter().take(50).map(|x| x.items.len()).collect::<Vec<_>>();
     match o {
         ScanObs::Done(p) => json!({"done": true, "pages": p.len(), "page_sizes": sizes(p), "items": p.iter().map(|x| x.items.len()).sum::<usize>()}),
-        ScanObs::Failed(c, p) => json!({"failed": c, "pages": p.len(), "page_sizes": sizes(p)}),
+        ScanObs::Failed(c, p) => json!({"failed": c, "pages": p.len(), "page_sizes": sizes(p),
+            "token_of_failed_request": p.last().and_then(|x| x.token.clone())}),
         ScanObs::Runaway(p) => json!({"runaway": true, "pages": p.len(), "page_sizes": sizes(p)}),
     }
 }
@@ -296,7 +372,7 @@ fn exec(case: &Case, srv: &mut Option<Server>) -> Line {
     let s = srv.get_or_insert_with(start);
     let cj = serde_json::to_value(case).unwrap();
     let set_coll = |s: &mut Server, keys: &Keys| {
-        let mut c = s.ctx.write().unwrap();
+        let mut c = s.ctx.ints.write().unwrap();
         *c = keys.to_vec().into_iter().collect();
     };
     match case {
@@ -318,6 +394,36 @@ fn exec(case: &Case, srv: &mut Option<Server>) -> Line {
                 tags: vec![format!("scan:{}:size{}:limit{}", order, size_band(keys.len()), lim_band(limit))],
                 nontrivial: true,
             }
+        }
+        Case::Names { order, names, limit } => {
+            // the collection as the server holds it: sorted in String order, distinct
+            let set: BTreeSet<String> = names.iter().cloned().collect();
+            let sorted: Vec<String> = set.iter().cloned().collect();
+            *s.ctx.names.write().unwrap() = set;
+            let n = sorted.len();
+            let rank = |v: &Value| -> Option<u64> {
+                // a name the collection does not hold gets rank n (in no collection)
+                v.as_str().map(|nm| sorted.binary_search_by(|x| x.as_str().cmp(nm)).map(|i| i as u64).unwrap_or(n as u64))
+            };
+            let o = scan_at(s, "/names", order, n, *limit, &rank);
+            let coq = format!(
+                "(CScanNames {} {} {} {})",
+                g_order(order),
+                g_list(&sorted, |x| g_str(x)),
+                g_opt(limit, |l| l.to_string()),
+                g_obs(&o)
+            );
+            // does some token of this scan use the two characters on which the
+            // url-safe and standard alphabets differ?
+            let pages = match &o {
+                ScanObs::Done(p) | ScanObs::Failed(_, p) | ScanObs::Runaway(p) => p,
+            };
+            let special = pages.iter().filter_map(|p| p.token.as_ref()).filter(|t| t.contains('-') || t.contains('_')).count();
+            let mut tags = vec![format!("names:{}:size{}:limit{}", order, size_band(n), lim_band(limit))];
+            for _ in 0..special {
+                tags.push("names:token-with-dash-or-underscore".to_string());
+            }
+            Line { group: "names", case: cj, obs: j_obs(&o), coq, tags, nontrivial: true }
         }
         Case::Grid { order, keys, limits } => {
             set_coll(s, keys);
@@ -396,6 +502,75 @@ fn keys(rng: &mut Rng, n: usize, style: usize) -> Keys {
         }
     }
     Keys::List(v)
+}
+
+/// Collections keyed by strings.  A token is base64 of
+/// {"v":"v1","page_start":{"order":"ascending","last":"NAME"}}: NAME starts at
+/// byte 52 (ascending) or 53 (descending) of the JSON, so which base64
+/// characters a byte of NAME produces depends on its position mod 3.  The
+/// names below put bytes that yield the sextets 62 / 63 (where the url-safe
+/// and the standard alphabet differ: '-' '_' vs '+' '/') at every alignment:
+/// '>' '~' 'þ'(C3 BE) '¾'(C2 BE) and '?' 'ÿ'(C3 BF) '¿'(C2 BF) as the third
+/// byte of a group, 'π'(CF 80) and "oé" (6F C3) across the second and third,
+/// 's京' (73 E4..) and 'o🦀' (6F F0..) across the first and second — each behind
+/// three consecutive lengths of padding, both orders, every limit (limit 1
+/// makes every item the last of a page).
+const SPECIALS: [&str; 14] = [">", "?", "~", "é", "ÿ", "þ", "¾", "¿", "π", "oé", "s京", "京", "o🦀", "b"];
+
+fn gen_names(rng: &mut Rng, thorough: bool, cases: &mut Vec<Case>) {
+    let orders = ["ascending", "descending"];
+    let mut colls: Vec<Vec<String>> = vec![];
+    // names that differ only in the special character, behind 0 / 1 / 2 bytes of padding
+    for pad in 0..3usize {
+        let p = "a".repeat(pad);
+        colls.push(SPECIALS.iter().map(|c| format!("{}item{}x", p, c)).collect());
+        // the special character at the very start and at the very end
+        colls.push(SPECIALS.iter().map(|c| format!("{}{}", p, c)).collect());
+    }
+    // all paddings in one collection
+    colls.push((0..3).flat_map(|pad| SPECIALS.iter().map(move |c| format!("{}k{}", "a".repeat(pad), c))).collect());
+    // runs of one special character, lengths 1..=4
+    colls.push(
+        [">", "?", "~", "ÿ", "þ", "π"].iter().flat_map(|c| (1..=4usize).map(move |k| c.repeat(k))).collect(),
+    );
+    // seeded random names over the special alphabet
+    let alpha: Vec<&str> = vec!["a", "o", "s", "z", "0", "9", " ", ">", "?", "~", "é", "ÿ", "þ", "¾", "¿", "π", "京", "🦀", "\u{7f}"];
+    let nrand = if thorough { 16 } else { 3 };
+    for i in 0..nrand {
+        let n = [6usize, 13, 30, 45][i % 4];
+        let mut v = vec![];
+        for _ in 0..n {
+            let len = 1 + rng.below(10);
+            let mut nm = String::new();
+            for _ in 0..len {
+                nm.push_str(*rng.pick(&alpha));
+            }
+            v.push(nm);
+        }
+        colls.push(v);
+    }
+    for names in &colls {
+        let n = names.iter().collect::<BTreeSet<_>>().len() as u64;
+        for o in orders.iter() {
+            let mut limits: Vec<Option<u64>> = vec![None];
+            limits.extend((1..=n + 1).map(Some));
+            limits.push(Some(10001));
+            for l in limits {
+                // quick: every limit for the short collections, a sample for the long ones
+                if !thorough && n > 20 && !matches!(l, None | Some(1) | Some(2) | Some(3) | Some(10001)) && !rng.chance(1, 4) {
+                    continue;
+                }
+                cases.push(Case::Names { order: o.to_string(), names: names.clone(), limit: l });
+            }
+        }
+    }
+    // a collection longer than the default page size (100), names from all paddings
+    let long: Vec<String> = (0..150usize).map(|i| format!("{}n{:03}{}", "a".repeat(i % 3), i, SPECIALS[i % SPECIALS.len()])).collect();
+    for o in orders.iter() {
+        for l in [None, Some(7), Some(99), Some(100), Some(101), Some(150), Some(10000)] {
+            cases.push(Case::Names { order: o.to_string(), names: long.clone(), limit: l });
+        }
+    }
 }
 
 fn generate(opts: &Opts) -> Vec<Case> {
@@ -484,6 +659,7 @@ fn generate(opts: &Opts) -> Vec<Case> {
         let st = [0, 1, 1, 0, 2, 1, 0, 3][style % 8];
         cases.push(Case::Scan { order: o.to_string(), keys: keys(&mut rng, n, st), limit: l });
     }
+    gen_names(&mut rng, opts.thorough, &mut cases);
     // the driver cuts the output into consecutive shards: mix cheap and costly cases
     rng.shuffle(&mut cases);
     cases
